@@ -105,7 +105,12 @@ MIN_COUNTERS = {
                  'random_leaf_runs': 20000, 'infinite_expressions': 50000,
                  'ended_streams_polled_again': 200000,
                  'reset_streams_compared': 200000, 'class_Placep': 10000,
-                 'concurrent_seeded_streams_compared': 10000,
+                 'inval_dependent_sequences_all': 10000,
+                 'inval_dependent_sequences_next': 20000,
+                 'series_with_omitted_arguments': 50000,
+                 'sequences_compared_int_float_strict': 400000,
+                 # the threads shards slow down most on a loaded machine
+                 'concurrent_seeded_streams_compared': 5000,
                  'concurrent_seeded_values_compared': 500000},
 }
 
@@ -113,17 +118,20 @@ N = 64
 
 
 def plan(tier, seed):
-    total = 48000 if tier == 'quick' else 7_000_000
-    parts = 16
-    secs = 45 if tier == 'quick' else 600
+    # 16 shards = one wave on 16 cores; the thorough tier is bounded by time
+    # (secs per shard), its case numbers are upper limits
+    quick = tier == 'quick'
+    total = 48000 if quick else 7_000_000
+    parts = 16 if quick else 14
+    secs = 45 if quick else 450
     shards = [{'name': f'expr{p}', 'mode': 'nrt', 'kind': 'expr',
-               'first_case': f, 'n': n, 'secs': secs, 'hard_timeout': secs + 120}
+               'first_case': f, 'n': n, 'secs': secs, 'hard_timeout': secs + 150}
               for p, (f, n) in enumerate(split(total, parts))]
-    nthr = 500 if tier == 'quick' else 40000
+    nthr = 500 if quick else 40000
     for p, (f, n) in enumerate(split(nthr, 2)):
         shards.append({'name': f'threads{p}', 'mode': 'nrt', 'kind': 'threads',
                        'first_case': f, 'n': n, 'secs': secs,
-                       'hard_timeout': secs + 120})
+                       'hard_timeout': secs + 150})
     return shards
 
 
